@@ -2,22 +2,9 @@
 import KernModel.Pitch
 import KernModel.Spec.Interval
 import KernProofs.Lemmas.PitchStr
+import KernProofs.Lemmas.Fin
 namespace KM
 open Pitch
-
-theorem lookup_mem {α β} [BEq α] [LawfulBEq α] (k : α) (l : List (α × β)) (v : β) (h : lookup k l = some v) :
-    (k, v) ∈ l := by
-  induction l with
-  | nil => simp [lookup] at h
-  | cons x xs ih =>
-    obtain ⟨k', v'⟩ := x
-    simp only [lookup] at h
-    by_cases hk : (k' == k) = true
-    · simp only [hk, if_true, Option.some.injEq] at h
-      have : k' = k := by simpa using hk
-      subst this; subst h; exact List.mem_cons_self
-    · simp only [hk] at h
-      exact List.mem_cons_of_mem _ (ih h)
 
 /-- every entry of `Chromas`: value in [0,40), `ChromasByValue` inverts it, the name is a stored name -/
 def chromaEntryOk (e : Str × Int) : Bool :=
